@@ -14,7 +14,11 @@ from .. import lib_fm_signature as S
 
 # family -> (features, quick, thorough)
 PLAN = [('seq', (), 12, 130), ('dup', (), 10, 110), ('shape', (), 10, 110), ('shape', ('clash',), 2, 20),
-        ('dtype', (), 10, 110), ('tbp', (), 8, 80)]
+        ('dtype', (), 10, 110), ('tbp', (), 8, 80),
+        # stratum sec3: sections of 3-d arrays (extents 2 x 3 x 4 and 2 x nv x 4) with scalar subscripts at every position
+        # (leading / middle / trailing) passed to rank-1 / rank-2 assumed-shape dummies; one such call is unconditional
+        ('shape', ('sec3',), 8, 60)]
+SEC3_MIN = (6, 45)       # legal programs with a non-trailing scalar subscript per quick / thorough run
 BASE = ('select', 'exitcycle', 'section')
 
 
@@ -39,6 +43,10 @@ def run(ctx):
         t = S.sig_tags(cases[idx][0])
         classes[t] = classes.get(t, 0) + 1
     ctx.cover['legal_programs_by_class'] = classes
+    sec3 = sum(n for t, n in classes.items() if 'sec3' in t.split(':')[1].split('+'))
+    ctx.cover['sec3_legal_programs'] = sec3
+    if not ctx.replay and sec3 < (SEC3_MIN[0] if ctx.quick else SEC3_MIN[1]):
+        raise F.MachineryError(f'vacuity: only {sec3} legal programs pass a 3-d section with a leading / middle scalar subscript')
     seen = set()
     for r in results:
         fam = cases[r['idx']][0]['meta']['family']
@@ -50,6 +58,7 @@ def run(ctx):
         'seq: element actuals of 1-d and 2-d integer arrays (literal or two-valued subscripts) bound to 1-d / 2-d explicit-shape dummies that fit into the rest of the array; whole-array and section actuals as negatives',
         'dup: all call sites of one callee duplicate the same positions (RemoveDuplicateArgs documents that differing duplicates are unsupported); duplicated dummies are intent(in)',
         'shape: assumed-shape integer dummies of rank 1 and 2 bound to whole arrays (constant and variable extents, lower bounds 0, 1, 2, -1) and sections; callee uses SIZE/LBOUND/UBOUND/SUM and whole-array assignment',
+        'shape/sec3: 3-d locals wd(2,3,4), we(2,nv,4); sections with full ranges `:` and one (rank-2 dummies sh2 in, sh4 inout) or two (rank-1 dummy sh1) scalar subscripts at every position; explicit ranges inside such sections are not generated',
         'transformed builds run with -fcheck=bounds,do: an actual argument made too small for its dummy or an index put out of bounds by a rewritten declaration is a violation',
         'dtype/tbp: one- and two-level derived types (scalar and array components with lower bound 0 or 1, a nested derived-type component) passed whole or as `outer%inner`; type-bound calls with the PASS attribute (the machine executes them as plain calls with the passed object first); arrays of derived type, allocatable/pointer components and generic bindings are not generated',
     ]
